@@ -167,7 +167,8 @@ class TypeFlow:
                     c = P.classes[v[1]]
                     m = P.method(c, e.attr)
                     if m is not None:
-                        out.add(("BM", m.qual, v))
+                        # a staticmethod reached through an instance is a plain function (no receiver is bound)
+                        out.add(("F", m.qual) if m.is_staticmethod else ("BM", m.qual, v))
                     typed = True
             out |= self.read_field(base, e.attr)
             if isinstance(e.value, ast.Call) and isinstance(e.value.func, ast.Name) and e.value.func.id == "super":
